@@ -30,7 +30,7 @@ class V(list):
 # ====================================================================== planning helpers
 
 PASSES = ["expand_macros", "expand_macros_preserve", "fill_in_let", "fill_in_let_O", "expand_subcircuits", "expand_subcircuits_caller", "fill_in_map", "unit_timing"]
-ANALYSES = ["generate", "used_qubits", "run", "output", "resolve", "repr", "eq"]
+ANALYSES = ["generate", "used_qubits", "run", "output", "resolve", "repr", "eq", "used_qubits_scribble", "run_scribble"]
 FLIP_PALETTE = ["$", "@", "'", '"', "\\", "\t", "\r", "\0", "é", "/*", "*/", "//", "[", "]", "{", "}", "<", ">", "|", ";", ":", "0", "-", "a", ".", " ", "\n", "~", "#", "`"]
 
 
@@ -332,6 +332,46 @@ class Session:
                 return out
 
             return job
+        if name == "used_qubits_scribble":
+            # scribble over what the analysis returned, then ask again: the answer must not
+            # have been a view of anything the library keeps
+
+            def job_uq():
+                r = get_used_qubit_indices(c)
+                first = {k: sorted(v) for k, v in r.items()}
+                for v in r.values():
+                    v.add(99)
+                r["__scribble__"] = {1}
+                r2 = get_used_qubit_indices(c)
+                second = {k: sorted(v) for k, v in r2.items()}
+                return {"first": first, "__stable__": first == second}
+
+            return job_uq
+        if name == "run_scribble":
+            seed = H(self.plan["run_seed"], "sampler", j)
+
+            def job_rs():
+                outs = []
+                for rep in range(2):
+                    s_ = seams.SimSampler(Tape(seed), "faithful")
+                    old = seams.install_sampler(s_)
+                    try:
+                        res = run_jaqal_circuit(c)
+                    finally:
+                        seams.install_sampler(old)
+                    outs.append(self.value_digest(res))
+                    for sc in res.subcircuits:  # scribble over the returned result
+                        sc.relative_frequency_by_int[:] = 7
+                        sc.simulated_probability_by_int[:] = 0.5
+                        sc.readouts.clear()
+                        try:
+                            sc.state_vector[:] = 0
+                        except Exception:
+                            pass
+                    res.subcircuits.clear()
+                return {"first": outs[0], "__stable__": outs[0] == outs[1]}
+
+            return job_rs
         if name == "repr":
             return lambda: repr(c)
         if name == "eq":
@@ -597,6 +637,8 @@ def exec_c11(plan):
             S.check_frozen(j, opname)
             if o["kind"] == "nonterm":
                 S.viol.add("C11", "terminates", "nonterm", o["where"], op=j)
+            if o["kind"] == "ok" and isinstance(o["value"], dict) and o["value"].get("__stable__") is False:
+                S.viol.add("C11", "result_is_not_a_view_of_library_state", "mismatch", opname, "%s: modifying the returned value changed what the next identical call returns" % opname, op=j)
             d1, d2 = S.outcome_digest(o), S.outcome_digest(ot)
             if d1 != d2:
                 S.viol.add("C11", "same_result_on_fresh_copy", "mismatch", opname, "%s on the shared object gives %r, on a freshly parsed copy %r" % (opname, d1, d2), op=j)
